@@ -124,6 +124,7 @@ type c15World struct {
 	delivered int                          // log index: events below were delivered or covered by a snapshot
 	known     map[string]map[string]string // svc -> key -> value the cluster knows (model of the diff base)
 	valOf     map[string]string            // key -> its value (one per key; per life of the key when rekey is set)
+	permute   bool                         // subscribers name the endpoints in different orders
 	rekey     bool                         // a key may come back with another value after it was deleted
 	carriers  map[string]map[string]bool   // svc|value -> keys that ever carried it
 
@@ -157,7 +158,9 @@ func newC15World(m *vk.M, idx int, r *rand.Rand, svcs []string) *c15World {
 		carriers: map[string]map[string]bool{},
 		reloaded: make(chan struct{}, 16),
 	}
-	if err := internal.C15Inject(w.eps, w.etcd); err != nil {
+	sorted := append([]string(nil), w.eps...)
+	sort.Strings(sorted)
+	if err := internal.C15Inject(sorted, w.etcd); err != nil {
 		m.Inconclusive("case %d: cannot inject the model etcd: %v", idx, err)
 		w.incon = true
 	}
@@ -182,7 +185,28 @@ func newC15WorldUnbound(m *vk.M, idx int, r *rand.Rand, svcs []string, eps []str
 	}
 }
 
-func (w *c15World) endpoints() []string { return append([]string(nil), w.eps...) }
+// endpoints returns the host list a caller passes to NewSubscriber/NewPublisher. In a
+// world with permuted endpoints the first subscriber names the hosts in non-sorted order
+// (w.eps, which is also what the harness uses wherever production code acts on "the
+// cluster that created the client": reload, connection-state watcher), later callers in
+// a random order: the same host set is the same cluster.
+func (w *c15World) endpoints() []string {
+	out := append([]string(nil), w.eps...)
+	if w.permute && len(w.subs) > 0 && w.r.Intn(3) > 0 {
+		sort.Strings(out)
+	}
+	return out
+}
+
+// permuteEndpoints must be called before the first subscriber attaches.
+func (w *c15World) permuteEndpoints() {
+	if len(w.subs) > 0 || w.incon {
+		return
+	}
+	w.permute = true
+	sort.Sort(sort.Reverse(sort.StringSlice(w.eps)))
+	w.tag = "endpoints-in-different-order"
+}
 
 func (w *c15World) dispose() {
 	if w.wedged {
